@@ -309,7 +309,6 @@ Theorem C12_container_delete_ok_refines :
   (forall a k b, len16 b -> len16 (E a k b)) ->
   (forall c lvl ws, decompress c (concat (compress c lvl ws)) = Ok (concat ws)) ->
   (forall c lvl (ws ws' : list bytes), concat ws = concat ws' -> concat (compress c lvl ws) = concat (compress c lvl ws')) ->
-  compress_small compress ->
   forall (lvl : N) (ctx : cctx), strict_ctx ctx -> forall pw : bytes, wf_ctx verify ctx pw ->
   forall (rb : normal_entry -> list N) (srb : solid_entry -> list N) (keep pwb : bool)
     (hdr_tok content_tok : normal_entry -> bytes) (nf : N) (matched : list bytes) (partial tmp atmp target : bytes)
@@ -336,7 +335,6 @@ Check C12_container_delete_ok_refines :
   (forall a k b, len16 b -> len16 (E a k b)) ->
   (forall c lvl ws, decompress c (concat (compress c lvl ws)) = Ok (concat ws)) ->
   (forall c lvl (ws ws' : list bytes), concat ws = concat ws' -> concat (compress c lvl ws) = concat (compress c lvl ws')) ->
-  compress_small compress ->
   forall (lvl : N) (ctx : cctx), strict_ctx ctx -> forall pw : bytes, wf_ctx verify ctx pw ->
   forall (rb : normal_entry -> list N) (srb : solid_entry -> list N) (keep pwb : bool)
     (hdr_tok content_tok : normal_entry -> bytes) (nf : N) (matched : list bytes) (partial tmp atmp target : bytes)
@@ -405,7 +403,6 @@ Theorem C12_container_update_ok_refines :
   (forall a k b, len16 b -> len16 (E a k b)) ->
   (forall c lvl ws, decompress c (concat (compress c lvl ws)) = Ok (concat ws)) ->
   (forall c lvl (ws ws' : list bytes), concat ws = concat ws' -> concat (compress c lvl ws) = concat (compress c lvl ws')) ->
-  compress_small compress ->
   forall (lvl : N) (ctx : cctx), strict_ctx ctx -> forall pw : bytes, wf_ctx verify ctx pw ->
   forall (rb : normal_entry -> list N) (srb : solid_entry -> list N) (keep pwb kd kt : bool) (excl : list bytes) (cond : N)
     (walk : list Update.node) (partial tmp atmp target : bytes) (fs : bfs) (afs : Update.fsys) (b : bytes)
@@ -438,7 +435,6 @@ Check C12_container_update_ok_refines :
   (forall a k b, len16 b -> len16 (E a k b)) ->
   (forall c lvl ws, decompress c (concat (compress c lvl ws)) = Ok (concat ws)) ->
   (forall c lvl (ws ws' : list bytes), concat ws = concat ws' -> concat (compress c lvl ws) = concat (compress c lvl ws')) ->
-  compress_small compress ->
   forall (lvl : N) (ctx : cctx), strict_ctx ctx -> forall pw : bytes, wf_ctx verify ctx pw ->
   forall (rb : normal_entry -> list N) (srb : solid_entry -> list N) (keep pwb kd kt : bool) (excl : list bytes) (cond : N)
     (walk : list Update.node) (partial tmp atmp target : bytes) (fs : bfs) (afs : Update.fsys) (b : bytes)
